@@ -54,7 +54,9 @@ def run_items(ctx, items, label):
 
 
 def decay_regime(e):
-    """A rest-time list without 0 loses every product that has decayed to (almost) nothing at the first rest time."""
+    """A rest-time list without 0 loses every product whose activity at the first rest time is no longer a normal
+    double (zero or denormal: A0 * exp(-lambda*T0) < 2.2e-308), or whose back-extrapolation factor exp(lambda*T0)
+    overflows (lambda*T0 > 709.7)."""
     from ..dec import to_decimal
     from decimal import Decimal
     try:
@@ -64,7 +66,8 @@ def decay_regime(e):
         target = to_decimal(e["target"])
         for p in e["products"]:
             a0, T = to_decimal(p["A0"]), to_decimal(p["Thalf"])
-            if a0 > target * Decimal("1e-4") and Decimal("0.6931471805599453") / T * Decimal(repr(To)) > 600:
+            x = Decimal("0.6931471805599453") / T * Decimal(repr(To))
+            if a0 > target * Decimal("1e-4") and (x > Decimal("709.7") or a0 * (-x).exp() < Decimal("2.2250738585072014e-308")):
                 return "short-lived-product-lost-before-first-rest-time"
     except Exception:
         pass
